@@ -6,6 +6,7 @@ base = json.load(open('/root/.vp/BASELINE.json'))
 with tempfile.TemporaryDirectory() as d:
     x = os.path.join(d, 'j.xml')
     env = dict(os.environ); env.pop('ENGINEIO_VERIF', None)
+    env['PYTHONPATH'] = os.path.join(repo, 'src')      # the package is installed in editable mode from /repo/src: make sure the tree under test is the one imported
     subprocess.run(['/venv/bin/python', '-m', 'pytest', '-ra', '-q', '-p', 'no:cacheprovider', '--timeout=900',
                     '--continue-on-collection-errors', '--junitxml=' + x], cwd=repo, env=env,
                    stdout=subprocess.DEVNULL, stderr=subprocess.DEVNULL)
